@@ -51,7 +51,10 @@ def check_clusters(ctx, F):
     ok = fit_s is not None and loop is not None and loop.lineno > fit_s.lineno and bool(label_reads) and \
         all(n.lineno > fit_s.lineno and ast.unparse(n) == "self.kmeans.labels_" for n in label_reads)
     ctx.check(ok, "R12.1", "the clustering is fitted on the stored contexts before its labels are read and the "
-              "cluster policies are trained", fo.node, fo, construct="kmeans fit in _fit_operation")
+              "cluster policies are trained", fo.node, fo,
+              "expected the unconditional statement self.kmeans.fit(self.contexts) before every read of "
+              "self.kmeans.labels_ and before the per-cluster loop: labels_ must describe exactly the stored rows",
+              construct="kmeans fit in _fit_operation")
     if loop is not None:
         c = ast.unparse(loop.target)
         it = ast.unparse(loop.iter)
